@@ -143,6 +143,19 @@ def checkEU (kvs okv : List (String × String)) : String := Id.run do
   if let some e := expect okv items "MODEL" then return e
   return "ok nontrivial=1"
 
+/-- units times a wide-range complex value: `x·1 = 1·x = x`, `x·i = i·x = (−im, re)`, `x·(−1) = −x`,
+`x·2 = 2·x = (2re, 2im)`, compared as printed exact rationals -/
+def checkCxUnits (okv : List (String × String)) : String := Id.run do
+  let g (k : String) := (lookup okv k).getD ""
+  let some (re, im) := (match (g "x").splitOn "," with
+    | [a, b] => do some ((← parseRat? a), (← parseRat? b))
+    | _ => none) | return "FAIL PARSE x"
+  let sh (a b : Rat) : String := s!"{showRat a},{showRat b}"
+  for (k, want) in [("x1", sh re im), ("1x", sh re im), ("xi", sh (-im) re), ("ix", sh (-im) re),
+      ("xm", sh (-re) (-im)), ("x2", sh (2 * re) (2 * im)), ("2x", sh (2 * re) (2 * im))] do
+    if g k != want then return s!"FAIL SPEC complex product {k} = {g k}, exact value {want} (x = {g "x"})"
+  return "ok nontrivial=1"
+
 def checkCx (kvs okv : List (String × String)) : String := Id.run do
   let some (a1, a2) := (lookup kvs "a").bind parseRat2 | return "FAIL PARSE a"
   let some (b1, b2) := (lookup kvs "b").bind parseRat2 | return "FAIL PARSE b"
@@ -229,6 +242,7 @@ def checkRingLine (kvs : List (String × String)) (rhs : String) : String :=
   | some "real" => if rhs.startsWith "panic:" then s!"FAIL SPEC {rhs}" else checkReal kvs okv
   | some "eu" => if rhs.startsWith "panic:" then s!"FAIL SPEC {rhs}" else checkEU kvs okv
   | some "cx" => if rhs.startsWith "panic:" then s!"FAIL SPEC {rhs}" else checkCx kvs okv
+  | some "cxu" => if rhs.startsWith "panic:" then s!"FAIL SPEC {rhs}" else checkCxUnits okv
   | some "bool" => checkBool kvs okv
   | some "poly" => if rhs.startsWith "panic:" then s!"FAIL SPEC {rhs}" else checkPoly kvs okv
   | _ => "FAIL PARSE type"
